@@ -263,6 +263,9 @@ def extract_guard(g):
     cond_t, kind_t, pos_t = clean(m.group(1), g["subs"]), m.group(2), clean(m.group(3) or "pos", g["subs"])
     if kind_t not in EKINDS:
         return None, f"unknown error kind {kind_t}"
+    if kind_t == "InsufficientSize":
+        # the position attached to a size error is not part of any property: not translated (see Bridge.lean)
+        pos_t = "0"
     try:
         c = parse_cond(cond_t, g["boo"]); pe = parse(pos_t)
         nat, boo = [], []
